@@ -70,7 +70,11 @@ def run (c : Case) : CaseOut := Id.run do
       | some row =>
         rows := rows ++ [row]
         let m := if execErr then ["execerr"] else renderOutcome (directSync cfg env row)
-        obs := obs ++ [[("sync" :: m), ("alone" :: m)]]
+        -- the EmitSync path hands its result to the synchronous sinks inline: the only sink of that instance sees the row
+        -- the call returns, and nothing when the call returns none or fails
+        let delivered := if execErr then [] else
+          [("ssink" :: (match m.head? with | some "none" => ["none"] | some "err" => ["none"] | some "panic" => ["none"] | _ => m))]
+        obs := obs ++ [[("sync" :: m), ("alone" :: m)] ++ delivered]
         tags := addTag tags (if m == ["none"] then "row-filtered" else "row-passes")
         -- oracle: history-free, and equal to the declarative result
         let sy := implObs.filter fun l => l.head? == some "sync"
@@ -80,6 +84,7 @@ def run (c : Case) : CaseOut := Id.run do
           else if wf && !execErr then
             let want := renderSpec (directSpec whereTrue items row)
             if sy != [("sync" :: want)] then spec := "fail:sync-result-differs-from-spec"
+            else if implObs.filter (fun l => l.head? == some "ssink") != [("ssink" :: want)] then spec := "fail:sync-sink-not-handed-the-emitsync-result"
     | "async" :: toks =>
       match parseRow toks with
       | none => obs := obs ++ [[["bad-row"]]]
